@@ -592,6 +592,26 @@ def clause4_algorithm(ctx, P, T):
 
 def clause3_sweeps(ctx, P, T):
     n = 0
+    # the bookkeeping of a slot (key marker, hop bitmap, value) is written by the table's own functions only: a sweep that
+    # 'releases the slot it already holds' by hand clears the wrong bitmap bit for every entry that does not sit in its home slot
+    outside = []
+    for f in P.own_functions():
+        if f in T.members or f.srcname.startswith(("hashtable_", "find_closer_entry_")):
+            continue
+        for i in f.all_insts():
+            if i.op == "store":
+                sf = _slot_field_store(P, f, i)
+                if sf:
+                    outside.append((f, i, sf[1]))
+            elif i.op == "call" and i.callee and P.srcname_of(i.callee).startswith(("llvm.memcpy", "llvm.memset", "llvm.memmove")):
+                dt = P.term(f, i.a[0])
+                if Q.mentions(dt, lambda x: x[0] == "field" and x[2] == "struct.hashtable_string") or \
+                        (dt[0] == "index" and Q.mentions(dt, lambda x: x[0] == "field" and x[3] == "routing_table")):
+                    outside.append((f, i, "slot"))
+    ctx.ob("C17.3 R-WHO", T.remove, "slots-are-written-by-the-table-only", not outside,
+           "%s writes %s of a table slot itself at %s: the hop bitmap that points to an entry belongs to the entry's HOME bucket, which "
+           "only the table's remove() finds - a hand-made release leaves a set bit pointing at an unused slot (or clears a foreign one)" %
+           ((outside[0][0].srcname, outside[0][2], outside[0][1].loc) if outside else ("", "", "")))
     for f in P.own_functions():
         if f in T.members:
             continue
